@@ -144,5 +144,11 @@ def fromStr (s : Bytes) : Option Bytes :=
     pure ((head :: others).flatMap encodeItem)
   | _ => none
 
+/-- `impl PartialEq for Oid`: the content octets are compared -/
+def eq (a b : Bytes) : Bool := a == b
+
+/-- `impl Hash for Oid`: what is fed to the hasher (`self.0.as_ref().hash(state)`) -/
+def hashInput (a : Bytes) : Bytes := a
+
 end Oid
 end Bcder
